@@ -13,6 +13,13 @@ use std::time::Duration;
 // ---- panic capture --------------------------------------------------------------------------------
 
 static PANICS: Mutex<Vec<String>> = Mutex::new(Vec::new());
+static ANY_PANIC: std::sync::atomic::AtomicBool = std::sync::atomic::AtomicBool::new(false);
+
+/// has any thread of this process panicked so far (a hang is then plausible; without any panic a
+/// slow call gets a much longer deadline before it is called a hang)
+pub fn any_panic_so_far() -> bool {
+    ANY_PANIC.load(std::sync::atomic::Ordering::SeqCst)
+}
 static HOOK: Once = Once::new();
 
 /// Record `<thread-kind> <file>: <message>` of every panic in any thread.
@@ -36,6 +43,7 @@ pub fn install_panic_hook() {
                     }
                 })
                 .unwrap_or_default();
+            ANY_PANIC.store(true, std::sync::atomic::Ordering::SeqCst);
             if let Ok(mut p) = PANICS.lock() {
                 p.push(format!("{}: {}", file, msg));
             }
@@ -180,15 +188,36 @@ pub fn with_deadline<T: Send + 'static, F: FnOnce() -> T + Send + 'static>(d: Du
     match rx.recv_timeout(d) {
         Ok(Ok(v)) => Ok(v),
         Ok(Err(e)) => Err(CallError::Panic(lvharness::suite::panic_message(e))),
-        Err(_) => Err(CallError::Deadline),
+        Err(_) => {
+            if any_panic_so_far() {
+                return Err(CallError::Deadline);
+            }
+            // nothing has panicked in this process: a wedged database is implausible, a stalled machine
+            // is not. Wait much longer before calling it a hang.
+            match rx.recv_timeout(HARD_EXTRA) {
+                Ok(Ok(v)) => Ok(v),
+                Ok(Err(e)) => Err(CallError::Panic(lvharness::suite::panic_message(e))),
+                Err(_) => Err(CallError::Deadline),
+            }
+        }
     }
 }
+
+pub const HARD_EXTRA: Duration = Duration::from_secs(50);
 
 static SEQ: std::sync::atomic::AtomicU64 = std::sync::atomic::AtomicU64::new(0);
 
 pub fn scratch_dir(tag: &str) -> PathBuf {
+    // the bookkeeping checks are not about durability: prefer a memory-backed directory so that fsync
+    // stalls of a shared disk cannot masquerade as hangs; fall back to the scratch area
+    let base = if std::path::Path::new("/dev/shm").is_dir() && std::fs::metadata("/dev/shm").map(|m| !m.permissions().readonly()).unwrap_or(false) {
+        "/dev/shm/lv-front"
+    } else {
+        "/verif/.cache/scratch/front"
+    };
     let d = PathBuf::from(format!(
-        "/verif/.cache/scratch/front-{}-{}-{}",
+        "{}-{}-{}-{}",
+        base,
         std::process::id(),
         tag,
         SEQ.fetch_add(1, std::sync::atomic::Ordering::SeqCst)
